@@ -411,6 +411,120 @@ class Oracle:
         return True
 
 
+
+# ----------------------------------------------------- history (aliasing) oracle
+_CHAN = None
+
+
+def _mod_channel():
+    global _CHAN
+    if _CHAN is None:
+        from pulser.channels import Rydberg
+
+        _CHAN = Rydberg.Global(None, None, mod_bandwidth=4)
+    return _CHAN
+
+
+def obs_state(w: Waveform):
+    """everything a user can observe of a waveform, as plain Python values"""
+    s = np.array(w.samples.as_array(detach=True), dtype=float, copy=True)
+    return (
+        int(w.duration),
+        [float(x) for x in s],
+        float(w.integral),
+        float(w.first_value),
+        float(w.last_value),
+        float(w[0]),
+        [float(x) for x in np.array(w[:].as_array(detach=True), dtype=float, copy=True)],
+    )
+
+
+def same_state(a, b) -> bool:
+    def eq(x, y):
+        if isinstance(x, list):
+            return len(x) == len(y) and all(eq(p, q) for p, q in zip(x, y))
+        return x == y or (x != x and y != y)
+
+    return all(eq(x, y) for x, y in zip(a, b))
+
+
+SENTINEL = -98765.4321
+
+# accessor name -> (function returning a handle the caller may write to)
+ACCESSORS = [
+    ("samples-setitem", lambda w: w.samples, lambda a: a.__setitem__(0, SENTINEL)),
+    ("samples.as_array", lambda w: w.samples.as_array(), lambda a: a.__setitem__(slice(None), SENTINEL)),
+    ("samples.as_array-detach", lambda w: w.samples.as_array(detach=True), lambda a: a.__setitem__(-1, SENTINEL)),
+    ("index", lambda w: w[0].as_array(), lambda a: a.__setitem__((), SENTINEL)),
+    ("slice-view", lambda w: w[0:].as_array(), lambda a: a.__setitem__(0, SENTINEL)),
+    ("slice-view", lambda w: w[:1], lambda a: a.__setitem__(0, SENTINEL)),
+]
+
+
+def history_check(orc: "Oracle", make, origin: str, modulated: bool = True):
+    """Read every array-returning accessor of a freshly built waveform, write
+    into the returned array, read the waveform again: its observable state
+    must not have changed.  [make] builds a fresh, independent object."""
+    seen = set()
+    for name, get, write in ACCESSORS:
+        try:
+            w = make()
+            before = obs_state(w)
+            h = get(w)
+            write(h)
+            after = obs_state(w)
+        except (TypeError, ValueError) as e:
+            # a read-only result is a legitimate way of protecting the state
+            if "read-only" in str(e) or "not support item assignment" in str(e):
+                continue
+            raise
+        if not same_state(before, after) and name not in seen:
+            seen.add(name)
+            orc.bad("aliasing:" + name, f"{origin}: writing into the array returned by {name} changed the waveform ({type(w).__name__}, first sample {before[1][0]} -> {after[1][0]}, integral {before[2]} -> {after[2]})")
+    if isinstance(make(), InterpolatedWaveform):
+        w = make()
+        before = (obs_state(w), w.data_points.tolist())
+        w.data_points[0, 1] = SENTINEL
+        if not same_state(before[0], obs_state(w)) or before[1] != w.data_points.tolist():
+            orc.bad("aliasing:data_points", f"{origin}: writing into data_points changed the waveform")
+    if isinstance(make(), CompositeWaveform):
+        w = make()
+        before = obs_state(w)
+        w.waveforms.clear()
+        if not same_state(before, obs_state(w)) or len(w.waveforms) == 0:
+            orc.bad("aliasing:waveforms-list", f"{origin}: clearing the list returned by .waveforms changed the composite")
+    if modulated:
+        w = make()
+        if w.duration <= 400 and np.all(np.isfinite(arr(w))):
+            ch = _mod_channel()
+            before = obs_state(w)
+            m0 = np.array(w.modulated_samples(ch).as_array(detach=True), dtype=float, copy=True)
+            h = w.modulated_samples(ch).as_array(detach=True)
+            try:
+                h[:] = SENTINEL
+            except ValueError:
+                h = None
+            m1 = np.array(w.modulated_samples(ch).as_array(detach=True), dtype=float, copy=True)
+            if not same_state(before, obs_state(w)):
+                orc.bad("aliasing:modulated-samples-input", f"{origin}: writing into modulated_samples() changed the waveform's samples")
+            elif not np.array_equal(m0, m1, equal_nan=True):
+                orc.bad("aliasing:modulated-samples-cache", f"{origin}: writing into the array returned by modulated_samples() changed what the next call returns")
+
+
+def history_check_custom(orc: "Oracle", vals, origin: str):
+    """CustomWaveform must not stay tied to the caller's array"""
+    a = np.array(vals, dtype=float)
+    w = CustomWaveform(a)
+    before = obs_state(w)
+    a[0] = SENTINEL
+    if not same_state(before, obs_state(w)):
+        orc.bad("aliasing:custom-caller-array", f"{origin}: CustomWaveform(arr) changes when the caller later writes to arr")
+    w = CustomWaveform(list(vals))
+    before = obs_state(w)
+    if not same_state(before, obs_state(w)):
+        orc.bad("aliasing:unstable", f"{origin}: two reads differ")
+
+
 # ---------------------------------------------------------------- runner
 def run_wf_case(case, env: Env, orc: Oracle):
     out = []
@@ -559,6 +673,10 @@ def run_wf_case(case, env: Env, orc: Oracle):
             if not legit:
                 orc.bad(f"op-raises:{k}:{type(e).__name__}", f"{k}{op[1:]} raised {type(e).__name__}: {e}")
         out.append(r)
+    if finite and d <= 400:
+        history_check(orc, lambda: build(case["wf"]), "wf")
+        if case["wf"][0] == "custom":
+            history_check_custom(orc, case["wf"][1], "wf")
     return out, w
 
 
@@ -633,7 +751,29 @@ def run_pulse_case(case, env: Env, orc: Oracle):
             orc.bad("pulse:rejected-valid:" + type(e).__name__, f"Pulse(...) raised {type(e).__name__}: {e}")
         return [c], None
     check_pulse(p, orc, "pulse")
+    if np.all(np.isfinite(arr(amp))) and np.all(np.isfinite(arr(det))):
+        pulse_history(orc, lambda: Pulse(build(case["amp"]), build(case["det"]), case["phase"], case["post"]))
     return [0, pulse_dump(p)], p
+
+
+def pulse_history(orc: Oracle, make):
+    """a pulse's waveforms cannot be changed through arrays handed out earlier
+    (in particular the amplitude cannot be made negative after construction)"""
+    for name, get, write in ACCESSORS[:3]:
+        for attr in ("amplitude", "detuning"):
+            p = make()
+            before = (obs_state(p.amplitude), obs_state(p.detuning), float(p.phase))
+            try:
+                write(get(getattr(p, attr)))
+            except (TypeError, ValueError) as e:
+                if "read-only" in str(e):
+                    continue
+                raise
+            after = (obs_state(p.amplitude), obs_state(p.detuning), float(p.phase))
+            if not (same_state(before[0], after[0]) and same_state(before[1], after[1]) and before[2] == after[2]):
+                neg = any(x < 0 for x in after[0][1])
+                orc.bad("aliasing:pulse-" + attr + ":" + name, f"writing into pulse.{attr}.{name} changed the pulse" + (" (amplitude now negative)" if neg else ""))
+                return
 
 
 def run_arb_case(case, env: Env, orc: Oracle):
